@@ -198,6 +198,7 @@ Cast(t, v, S) ==
 \* implicit conversion on initialisation / assignment / argument passing / return: int widens to long
 Conv(t, v) == IF t = "long" /\ v.t = "int" THEN VLong(v.v) ELSE v
 ElemConv(et, v) == IF et = "int" /\ v.t = "bit" THEN VInt(v.v)
+                   ELSE IF et = "int" /\ v.t = "float" THEN VInt(Trunc(v.n, v.d))          \* documented: int[] accepts float, truncated
                    ELSE IF et = "float" /\ v.t \in {"int", "bit"} THEN VFloat(v.v, 1)
                    ELSE IF et = "long" /\ v.t \in {"int", "bit"} THEN VLong(v.v)
                    ELSE IF et = "bool" /\ v.t = "bit" THEN VBool(v.v # 0)
